@@ -142,7 +142,11 @@ Pool == {
 }
 
 SeqsUpTo(S, k) == UNION {[1..m -> S] : m \in 0..k}
-Cases == [ops : SeqsUpTo(Pool, 3), value : {"VA", "VB", "VF", "zero"}, root : {"AppHash", "AppHash2"}]
+\* The node chooses the whole response, including the `key` field it echoes (rkey).  The client asked for KA: neither
+\* the verification (which must use the locally built key) nor the demanded verdict depends on the echoed key, so a
+\* client that verifies the echoed key instead (another account's key, value and valid proof) is caught by Demand.
+Cases == [ops : SeqsUpTo(Pool, 3), value : {"VA", "VB", "VF", "zero"}, root : {"AppHash", "AppHash2"},
+          rkey : {"KA", "KB"}]
 
 AbsOps(c) == [i \in 1..Len(c.ops) |-> OpOf(c.ops[i])]
 Honest(c) == \/ c.value = "VA" /\ c.root = "AppHash"
